@@ -51,7 +51,8 @@ def gen_groups(ctx):
     rest = [x for x in rng.shuffle(all_pairs) if x not in base][:4]
     ds_pairs = [(sp, pick_starts(3)) for sp in base + rest]
   else:
-    ds_pairs = [(sp, all_starts) for sp in all_pairs]
+    # full grid, three passes with different graft types / momentum variants / gradient histories
+    ds_pairs = [(sp, all_starts) for sp in all_pairs] * 3
   for (s, p), starts in ds_pairs:
     kw = dict(graft_type=rng.choice(["SGD", "RMSPROP", "ADAGRAD"]), nesterov=bool(rng.below(2)))
     groups.append(dict(opt="ds", s=s, p=p, starts=starts, shapes=shapes, kw=kw,
@@ -76,14 +77,14 @@ def gen_groups(ctx):
     tf_pairs = [((3, 2), pick_starts(2)), ((2, 3), pick_starts(2)), ((1, 1), pick_starts(2)),
                 ((4, 5), pick_starts(2))] + [(sp, pick_starts(2)) for sp in rng.shuffle(all_pairs)[:4]]
   else:
-    tf_pairs = [(sp, all_starts) for sp in all_pairs]
+    tf_pairs = [(sp, all_starts) for sp in all_pairs] * 2
   for (s, p), starts in tf_pairs:
     kw = dict(graft_type=rng.choice(["SGD", "RMSPROP"]), momentum=rng.choice([0.0, 0.9]),
               nesterov=bool(rng.below(2)))
     groups.append(dict(opt="tf_shampoo", s=s, p=p, starts=starts, shapes=shapes, kw=kw,
                        seed=rng.next() % (1 << 31)))
   # Tearfree Sketchy (one frequency)
-  for f in (rng.shuffle([1, 2, 3, 4, 5])[:4] if quick else [1, 2, 3, 4, 5]):
+  for f in (rng.shuffle([1, 2, 3, 4, 5])[:4] if quick else [1, 2, 3, 4, 5] * 3):
     kw = dict(graft_type=rng.choice(["SGD", "RMSPROP"]), momentum=rng.choice([0.0, 0.9]),
               nesterov=bool(rng.below(2)), rank=2)
     groups.append(dict(opt="tf_sketchy", s=f, p=f, starts=pick_starts(2) if quick else all_starts,
@@ -228,7 +229,7 @@ def judge_group(ctx, r, stats):
       continue
     m = run.get("model", {})
     bad = []
-    dirty = False
+    dirty = True     # the initial preconditioners are not the root of the initial statistics
     for t, b in enumerate(run["bits"]):
       cnt, sch, pch, mch, sdep, pdep = b
       is_s = (t % s == 0)
